@@ -149,16 +149,18 @@ def _is_call_site(e, call_node):
 
 
 def nan_placement(ctx, obs, rule='NAN'):
+    """pairs of two copies of one condition are NaN because the DIAGONAL of the source matrices is set to NaN before rows / columns
+    are duplicated by the fancy-index expansion.  Recognised ways of setting the diagonal: np.fill_diagonal per RDM (in a loop over
+    the stack, value np.nan) or an indexed store M[..., I, I] = np.nan with the same index on the last two axes.  Recognised wrong
+    forms are violations (fill value not NaN, fill_diagonal applied once to the 3-D stack, NaN assigned by a test on the VALUES
+    such as `== 0`, diagonal set after the expansion); an unrecognised construction is undecided."""
     prog = ctx.prog
     q = 'rdm.rdms.RDMs.subsample_pattern'
     f = prog.func(q)
     r = ctx.dep.result(q)
     inl = Inliner(r, None, ())
     fills = [c for c in r.calls if c.ext and c.ext.endswith('fill_diagonal')]
-    if not fills:
-        obs.bad(rule, q, 'the diagonal of the matrix form is set to NaN', 'no np.fill_diagonal call: pairs of two copies of '
-                'one condition would carry the value 0 instead of NaN', where(prog, f, f.node))
-        return
+    diag_events = []          # (statement, description)
     for c in fills:
         tgt = inl.inline(c.node.args[0])
         fresh = any(isinstance(n, ast.Call) and isinstance(n.func, ast.Attribute) and n.func.attr == 'get_matrices'
@@ -170,7 +172,40 @@ def nan_placement(ctx, obs, rule='NAN'):
         obs.check(isinstance(val, ast.Attribute) and val.attr == 'nan', rule, q, 'the diagonal value is NaN',
                   f'`{norm(c.node)}` fills with `{norm(val) if val is not None else None}`', '', where(prog, f, c.node))
         obs.check(bool(c.in_loops), rule, q, 'every RDM of the stack gets its diagonal set', 'fill_diagonal is not in a loop '
-                  'over the RDMs', '', where(prog, f, c.node))
+                  'over the RDMs (on a 3-D stack it would set m[i, i, i])', '', where(prog, f, c.node))
+        diag_events.append(c.node)
+    for s in ast.walk(f.node):
+        if isinstance(s, ast.Assign) and isinstance(s.targets[0], ast.Subscript) and isinstance(s.targets[0].slice, ast.Tuple) \
+                and len(s.targets[0].slice.elts) >= 2 and _is_nan_value(s.value):
+            a, b = s.targets[0].slice.elts[-2:]
+            if ast.dump(a) == ast.dump(b) and not isinstance(a, ast.Slice):
+                tgt = inl.inline(s.targets[0].value)
+                fresh = any(isinstance(n, ast.Call) and isinstance(n.func, ast.Attribute) and n.func.attr == 'get_matrices'
+                            for n in ast.walk(tgt))
+                obs.check(fresh, rule, q, 'NaN is written into the freshly allocated matrix form (get_matrices)',
+                          f'`{norm(s)[:70]}` writes into `{ast.unparse(tgt)[:60]}`', '', where(prog, f, s))
+                diag_events.append(s)
+        # NaN assigned where the VALUE is 0: also hits genuine zero dissimilarities between different conditions
+        if isinstance(s, ast.Assign) and isinstance(s.targets[0], ast.Subscript) and _is_nan_value(s.value) \
+                and isinstance(s.targets[0].slice, ast.Compare) and isinstance(s.targets[0].slice.ops[0], ast.Eq) \
+                and isinstance(s.targets[0].slice.comparators[0], ast.Constant) and s.targets[0].slice.comparators[0].value == 0:
+            obs.bad(rule, q, 'entries become NaN because of WHICH pair they are, not because of their value',
+                    f'`{norm(s)[:80]}` turns every zero dissimilarity into NaN, also between two different conditions',
+                    where(prog, f, s))
+    # NaN placed through np.diff(selection) == 0: only NEIGHBOURING copies are paired; with three or more copies of one condition
+    # the first-third (etc.) pairs keep the value 0
+    for s_ in ast.walk(f.node):
+        if isinstance(s_, ast.Assign) and isinstance(s_.targets[0], ast.Subscript) and _is_nan_value(s_.value):
+            idx_e = inl.inline(s_.targets[0].slice)
+            if any(isinstance(c, ast.Call) and isinstance(c.func, ast.Attribute) and c.func.attr == 'diff' for c in ast.walk(idx_e)):
+                obs.bad(rule, q, 'every pair of copies of one condition becomes NaN',
+                        f'`{norm(s_)[:80]}` locates the copies with np.diff(...) == 0, i.e. only adjacent copies: a condition drawn three '
+                        f'times leaves the pair (first, third) at 0', where(prog, f, s_))
+    if not diag_events:
+        obs.unk(rule, q, 'the diagonal of the matrix form is set to NaN', 'no recognised way of setting the diagonal (np.fill_diagonal '
+                'per RDM, or M[..., I, I] = np.nan)', where(prog, f, f.node))
+        return
+    fills = [type('X', (), {'node': diag_events[0]})()]
     # order: fill happens before the expansion by the selection
     top = f.node.body
     fill_pos = next((i for i, s in enumerate(top) if any(n is fills[0].node for n in ast.walk(s))), None)
@@ -193,3 +228,9 @@ def nan_placement(ctx, obs, rule='NAN'):
         obs.check(fill_pos < exp_pos, rule, q, 'diagonal is set before the fancy-index expansion',
                   'np.fill_diagonal runs after the rows/columns were duplicated: pairs of two copies of one condition '
                   'off the new diagonal keep the value 0', '', where(prog, f, top[exp_pos]))
+
+
+def _is_nan_value(v):
+    return (isinstance(v, ast.Attribute) and v.attr == 'nan') or (isinstance(v, ast.Call) and isinstance(v.func, ast.Name)
+                                                                  and v.func.id == 'float' and v.args
+                                                                  and isinstance(v.args[0], ast.Constant) and v.args[0].value == 'nan')
